@@ -481,6 +481,7 @@ pub fn random_stage<T, S>(
             scope.spawn(move || {
                 let local = RefCell::new(ctx.new_local());
                 let first_kind: RefCell<Option<String>> = RefCell::new(None);
+                let first_failure: RefCell<Option<(Failure, Value)>> = RefCell::new(None);
                 let config = Config {
                     cases: per as u32,
                     failure_persistence: None,
@@ -530,6 +531,7 @@ pub fn random_stage<T, S>(
                                 Ok(())
                             } else {
                                 *first_kind.borrow_mut() = Some(f.kind.clone());
+                                *first_failure.borrow_mut() = Some((f.clone(), serde_json::to_value(&case).unwrap_or(Value::Null)));
                                 ctx.stop.store(true, Ordering::SeqCst);
                                 Err(TestCaseError::fail(f.kind))
                             }
@@ -542,15 +544,19 @@ pub fn random_stage<T, S>(
                         // re-run the minimal case to get the exact failure
                         let mut scratch = Local::default();
                         ctx.slot_begin(tid, stage, || serde_json::to_string(&minimal).unwrap_or_default());
-                        let f = match test(&minimal, &mut scratch) {
-                            Err(f) => f,
-                            Ok(()) => Failure::new(
-                                first_kind.borrow().clone().unwrap_or_default(),
-                                "failure did not reproduce on the shrunk case (non-deterministic?)",
-                            ),
-                        };
+                        let rerun = test(&minimal, &mut scratch);
                         ctx.slot_end(tid);
-                        ctx.report_failure(f, serde_json::to_value(&minimal).unwrap_or(Value::Null), stage);
+                        match rerun {
+                            Err(f) => ctx.report_failure(f, serde_json::to_value(&minimal).unwrap_or(Value::Null), stage),
+                            Ok(()) => {
+                                // shrinking ended on a case that passes when re-run: report the original failure
+                                let (mut f, case) = first_failure.borrow_mut().take().unwrap_or_else(|| {
+                                    (Failure::new(first_kind.borrow().clone().unwrap_or_default(), "unknown"), serde_json::to_value(&minimal).unwrap_or(Value::Null))
+                                });
+                                f.detail = format!("{} [note: the shrunk case passed when re-run - the failure may depend on something outside the case]", f.detail);
+                                ctx.report_failure(f, case, stage);
+                            }
+                        }
                     }
                     Err(TestError::Abort(why)) => {
                         eprintln!("[{}] stage {stage}: proptest aborted: {why}", ctx.prop);
